@@ -121,8 +121,10 @@ def enc_float(x):
   return NAN if x != x else R.enc(Fr(x))
 
 
-def gen_data(rng, arms):
-  """(cfg, whole batch) in the rolling family's MeanAndVariance case format."""
+def gen_data(rng, arms, valid_rows=False):
+  """(cfg, whole batch) in the rolling family's MeanAndVariance case format.  `valid_rows`: every 2-D row keeps at
+  least one non-NaN entry, so that no accumulator sees only NaNs (that input class is the open finding F26 of C07:
+  the accumulator stays scalar; it is generated for C07 only, where it is listed)."""
   n = rng.choice([2, 3, 5, 8, 13, 20, 40])
   p_nan = 0.08 if rng.random() < 0.3 else 0.0
   def nanify(col):
@@ -136,7 +138,12 @@ def gen_data(rng, arms):
     return dict(dim=1), dict(dim=1, xs=[enc_float(x) for x in col])
   arms.add('2-D')
   k = rng.randint(1, 3)
-  cols = [nanify(gen_column(rng, n, arms)) for _ in range(k)]
+  raw = [gen_column(rng, n, arms) for _ in range(k)]
+  cols = [nanify(c) for c in raw]
+  if valid_rows:
+    for i in range(n):
+      if all(cols[j][i] != cols[j][i] for j in range(k)):
+        cols[0][i] = raw[0][i]
   return dict(dim=2, k=k), dict(dim=2, k=k, rows=[[enc_float(cols[j][i]) for j in range(k)] for i in range(n)])
 
 
@@ -321,7 +328,7 @@ def gen(ctx, pid, builder, n_quick, n_thorough):
     arms = set()
     metric = rng.choice(['meanvar', 'meanvar', 'meanvar', 'var', 'mean'])
     spec = R.SPECS[metric]
-    cfg, whole = gen_data(rng, arms)
+    cfg, whole = gen_data(rng, arms, valid_rows=(pid != 'C07'))
     shards = compose(rng, spec, cfg, whole, arms)
     api = 'aggfn' if rng.random() < 0.4 else 'object'
     arms.add(api + ' api')
